@@ -2,6 +2,8 @@ import NurbsVerif.Lemmas.Exchange
 import NurbsVerif.Lemmas.ExchangeEval
 import NurbsVerif.Lemmas.ExchangeAssemble
 import NurbsVerif.Lemmas.ExchangeAssembleFile2d
+import NurbsVerif.Lemmas.ExchangeDersSurf
+import NurbsVerif.Lemmas.ExchangeFile2dPinned
 import Mathlib.Algebra.Order.Field.Rat
 import Mathlib.Tactic.NormNum
 
@@ -174,6 +176,26 @@ theorem weight2d_repaired_all_sizes (g : List (List (List K))) (su sv : ℕ) (h 
 theorem flip2d_pinned_refutes_all_nonsquare (g : List (List (List K))) (su sv : ℕ) (h : Rect2d g su sv)
     (hu : 0 < su) (hv : 0 < sv) (hne : su ≠ sv) : flip2dFilePinned (file2Of g) = none :=
   flip2dFilePinned_nonsquare g su sv h hu hv hne
+
+/-- **F-14b, the pinned SAVER without a flip, all sizes**: `generate_ctrlptsw2d_file` with the pinned
+    `_save_ctrlpts2d_file` (line end after point `size_u - 1` instead of `size_v - 1`) on every rectangular file of
+    `size_u ≥ 1` lines of `size_v ≥ 1` points: it does not raise, it writes all converted points in the order of the
+    array (`flatten`), but in these lines – `size_u ≤ size_v`: a first line of `size_u` points, then `size_u - 1` lines of
+    `size_v` points (the rest of a row and the beginning of the next), then, if `size_u < size_v`, a last line of
+    `size_v - size_u` points; `size_u > size_v`: ONE line of `size_u * size_v` points.  (2 x 3: lines of 2, 3, 1 –
+    `save2d_pinned_refutes`.) -/
+theorem weight2d_pinned_line_structure_all_sizes (g : List (List (List K))) (su sv : ℕ) (h : Rect2d g su sv)
+    (hu : 0 < su) (hv : 0 < sv) :
+    ∃ L, weight2dFilePinned (file2Of g) = some L ∧ L.flatten = (g.map (·.map weightPt)).flatten ∧
+      L.map List.length = if su ≤ sv then su :: List.replicate (su - 1) sv ++ (if su = sv then [] else [sv - su])
+        else [su * sv] :=
+  weight2dFilePinned_rect g su sv h hu hv
+
+/-- … hence on EVERY non-square rectangular file the pinned helper writes another file than the repaired one
+    (`weight2d_repaired_all_sizes`: `size_u` lines of `size_v` points). -/
+theorem weight2d_pinned_refutes_all_nonsquare (g : List (List (List K))) (su sv : ℕ) (h : Rect2d g su sv)
+    (hu : 0 < su) (hv : 0 < sv) (hne : su ≠ sv) : weight2dFilePinned (file2Of g) ≠ weight2dFile (file2Of g) :=
+  weight2dFilePinned_nonsquare g su sv h hu hv hne
 
 /-- non-vacuity: a 2 x 3 array over ℚ -/
 example : Rect2d ([[[0, 0, 0, 1], [0, 1, 0, 2], [0, 2, 0, 3]], [[1, 0, 0, 1], [1, 1, 0, 1/2], [1, 2, 0, 1]]] : List (List (List ℚ))) 2 3 :=
@@ -385,6 +407,110 @@ theorem json_trim_curve_same_points (c : CrvX K) (d : ℕ) (h : Trim.Ok (.spline
     ∃ c', importTrim (exportTrim (.spline c)) = .spline c' ∧ Crv.SamePoints c'.g c.g :=
   ⟨c.asRational none, dict_trim (.spline c) h, fun u hu => Crv.asRational_point c.g d he u hu⟩
 
+/-! ### derivatives of the reimported shape
+
+`Crv.ders c u order` / `Srf.ders s u v order tri` (`Lemmas/ExchangeDers*.lean`) are what `derivatives` runs on a shape
+record: span search, A3.2 (`Geomdl.curveDers`) resp. the table of mixed derivatives A3.6 (`Geomdl.surfaceDersAt`; `tri`:
+the triangular table of the alternative evaluator) on the stored net, then A4.2 / A4.4 (`ratCurveDers`,
+`ratSurfaceDers`) iff the shape is rational.  "Up to rational form" does two things to them:
+
+* the UNIT WEIGHTS a non-rational shape comes back with change nothing (`unit_weights_keep_*`);
+* the NORMALISED knot vector is a change of parameter `t = (u - U_first)/(U_last - U_first)`: the derivative of order `k`
+  (cell `[k][l]`) of the reimported shape is the exported one multiplied by `(U_last - U_first)ᵏ` (resp.
+  `(lastU - firstU)ᵏ (lastV - firstV)ˡ`) – `scaleJet c L` multiplies entry `k` of `L` by `cᵏ`, `scaleJet2 cu cv T` cell
+  `[k][l]` of `T` by `cuᵏ cvˡ` (`derivative_scaling_means`).  The SAME vectors come back iff the knot vectors already are
+  normalised (the library's default) – `*_when_normalised`. -/
+
+/-- what the scaling of a list / table of derivatives is.  (Unfolding lemma.) -/
+theorem derivative_scaling_means (c cu cv : K) (L : List (List K)) (T : List (List (List K))) (k l : ℕ) :
+    (scaleJet c L).getD k [] = vsmul (c ^ k) (L.getD k []) ∧
+    ((scaleJet2 cu cv T).getD k []).getD l [] = vsmul (cu ^ k * cv ^ l) ((T.getD k []).getD l []) :=
+  ⟨scaleJet_getD c L k, scaleJet2_getD cu cv T k l⟩
+
+/-- **unit weights, curves**: A3.2 on the homogeneous net the readers store (`homNet`: the stored net of a rational
+    curve, the points extended by the weight 1 otherwise) followed by A4.2 gives, with the SAME knots at the SAME
+    parameter, the derivatives of the exported curve – all orders, every parameter of the closed domain. -/
+theorem unit_weights_keep_curve_derivatives (c : Crv K) (d : ℕ) (h : c.EvalOk d) (u : K)
+    (hu : InDomain c.degree c.knots c.net.length u) (order : ℕ) :
+    ratCurveDers (curveDers c.degree (fnOf c.knots) (homNet c.rational c.net) u order) = c.ders u order :=
+  Crv.ders_unit_weights c d h u hu order
+
+/-- **curves, export → import → derivatives**: the shape every reader returns for an exported curve, at the normalised
+    parameter, has the derivatives of the exported curve at `u`, order `k` multiplied by `(U_last - U_first)ᵏ`. -/
+theorem curve_reimport_derivatives (c : Crv K) (d : ℕ) (h : c.EvalOk d) (u : K)
+    (hu : InDomain c.degree c.knots c.net.length u) (order : ℕ) :
+    c.asRational.ders (normParam c.knots u) order
+      = scaleJet (c.knots.getLastD 0 - c.knots.headD 0) (c.ders u order) :=
+  Crv.asRational_ders c d h u hu order
+
+/-- a curve on a normalised knot vector comes back with the same derivatives at the same parameter -/
+theorem curve_reimport_same_derivatives_when_normalised (c : Crv K) (d : ℕ) (h : c.EvalOk d) (u : K)
+    (hu : InDomain c.degree c.knots c.net.length u) (order : ℕ)
+    (h0 : c.knots.headD 0 = 0) (h1 : c.knots.getLastD 0 = 1) :
+    c.asRational.ders u order = c.ders u order :=
+  Crv.asRational_ders_normalised c d h u hu order h0 h1
+
+/-- **unit weights, surfaces**: the whole table of mixed derivatives, both evaluator variants. -/
+theorem unit_weights_keep_surface_derivatives (s : Srf K) (d : ℕ) (h : s.EvalOk d) (u v : K)
+    (hu : InDomain s.degU s.knotsU s.sizeU u) (hv : InDomain s.degV s.knotsV s.sizeV v) (order : ℕ) (tri : Bool) :
+    ratSurfaceDers (surfaceDersAt s.degU s.degV (fnOf s.knotsU) (fnOf s.knotsV) s.sizeV (homNet s.rational s.net)
+      (findSpanLinear s.degU (fnOf s.knotsU) s.sizeU u) (findSpanLinear s.degV (fnOf s.knotsV) s.sizeV v) u v order tri) order
+      = s.ders u v order tri :=
+  Srf.ders_unit_weights s d h u v hu hv order tri
+
+/-- **surfaces, export → import → derivatives**: cell `[k][l]` of the reimported surface at the normalised parameters
+    is the cell of the exported surface at `(u, v)` multiplied by `(lastU - firstU)ᵏ (lastV - firstV)ˡ`. -/
+theorem surface_reimport_derivatives (s : Srf K) (d : ℕ) (h : s.EvalOk d) (u v : K)
+    (hu : InDomain s.degU s.knotsU s.sizeU u) (hv : InDomain s.degV s.knotsV s.sizeV v) (order : ℕ) (tri : Bool) :
+    s.asRational.ders (normParam s.knotsU u) (normParam s.knotsV v) order tri
+      = scaleJet2 (s.knotsU.getLastD 0 - s.knotsU.headD 0) (s.knotsV.getLastD 0 - s.knotsV.headD 0)
+          (s.ders u v order tri) :=
+  Srf.asRational_ders s d h u v hu hv order tri
+
+/-- a surface on normalised knot vectors comes back with the same table of derivatives -/
+theorem surface_reimport_same_derivatives_when_normalised (s : Srf K) (d : ℕ) (h : s.EvalOk d) (u v : K)
+    (hu : InDomain s.degU s.knotsU s.sizeU u) (hv : InDomain s.degV s.knotsV s.sizeV v) (order : ℕ) (tri : Bool)
+    (hu0 : s.knotsU.headD 0 = 0) (hu1 : s.knotsU.getLastD 0 = 1) (hv0 : s.knotsV.headD 0 = 0)
+    (hv1 : s.knotsV.getLastD 0 = 1) :
+    s.asRational.ders u v order tri = s.ders u v order tri :=
+  Srf.asRational_ders_normalised s d h u v hu hv order tri hu0 hu1 hv0 hv1
+
+/-- **smesh, export → import → derivatives** -/
+theorem smesh_export_import_derivatives (s : Srf K) (d : ℕ) (h : s.EvalOk d)
+    (hw : s.rational = true → WeightsOk s.net) (hd : dimOf s.rational s.net = 3) (u v : K)
+    (hu : InDomain s.degU s.knotsU s.sizeU u) (hv : InDomain s.degV s.knotsV s.sizeV v) (order : ℕ) (tri : Bool) :
+    (smeshRead (smeshWrite s)).map (fun s' => s'.ders (normParam s.knotsU u) (normParam s.knotsV v) order tri)
+      = some (scaleJet2 (s.knotsU.getLastD 0 - s.knotsU.headD 0) (s.knotsV.getLastD 0 - s.knotsV.headD 0)
+          (s.ders u v order tri)) := by
+  rw [smesh_roundtrip s h.len hw hd h.kvU h.kvV, Option.map_some, Srf.asRational_ders s d h u v hu hv order tri]
+
+/-- **JSON / YAML / cfg (dict form), curves and containers of curves**: the imported curves correspond to the exported
+    ones in container order, and each has – at the normalised parameter – the derivatives of the exported one, scaled as
+    above (point length `d` per element). -/
+theorem json_export_import_derivatives_curves (ov : Option K) (l : List (CrvX K))
+    (h : Shapes.Ok (.curves l)) (he : ∀ c ∈ l, ∃ d, c.g.EvalOk d) :
+    ∃ l', importShapes ov (exportShapes (.curves l)) = .curves l' ∧
+      List.Forall₂ (fun c' c => ∀ u, InDomain c.g.degree c.g.knots c.g.net.length u → ∀ order,
+        c'.g.ders (normParam c.g.knots u) order
+          = scaleJet (c.g.knots.getLastD 0 - c.g.knots.headD 0) (c.g.ders u order)) l' l :=
+  ⟨l.map (CrvX.asRational ov), dict_shapes ov (.curves l) h,
+   forall₂_map_of l _ _ (fun c hc u hu order => by
+     obtain ⟨d, hd⟩ := he c hc
+     exact Crv.asRational_ders c.g d hd u hu order)⟩
+
+/-- **dict form, surfaces and containers of surfaces** -/
+theorem json_export_import_derivatives_surfaces (ov : Option K) (l : List (SrfX K))
+    (h : Shapes.Ok (.surfaces l)) (he : ∀ s ∈ l, ∃ d, s.g.EvalOk d) :
+    ∃ l', importShapes ov (exportShapes (.surfaces l)) = .surfaces l' ∧
+      List.Forall₂ (fun s' s => ∀ u v, InDomain s.g.degU s.g.knotsU s.g.sizeU u → InDomain s.g.degV s.g.knotsV s.g.sizeV v →
+        ∀ order tri, s'.g.ders (normParam s.g.knotsU u) (normParam s.g.knotsV v) order tri
+          = scaleJet2 (s.g.knotsU.getLastD 0 - s.g.knotsU.headD 0) (s.g.knotsV.getLastD 0 - s.g.knotsV.headD 0)
+              (s.g.ders u v order tri)) l' l :=
+  ⟨l.map (SrfX.asRational ov), dict_shapes ov (.surfaces l) h,
+   forall₂_map_of l _ _ (fun s hs u v hu hv order tri => by
+     obtain ⟨d, hd⟩ := he s hs
+     exact Srf.asRational_ders s.g d hd u v hu hv order tri)⟩
+
 end endToEnd
 
 /-! ## non-vacuity: a concrete 2 x 3 rational surface satisfies every hypothesis of `smesh_export_import` -/
@@ -466,5 +592,44 @@ example : ∃ l', importShapes (some (1/3 : ℚ)) (exportShapes (.surfaces mixed
     rcases hs with rfl | rfl
     · exact ⟨4, srfWitness_evalOk⟩
     · exact ⟨3, srfPlain_evalOk⟩)
+
+/-! non-vacuity of the derivative statements: the non-rational `srfPlain` (knot ranges `[2,5]`, `[-1,3]`: factors 3 and 4)
+and a non-rational quadratic curve on `[1,3]` (factor 2) -/
+
+example : (smeshRead (smeshWrite srfPlain)).map
+      (fun s' => s'.ders (normParam [2, 2, 5, 5] 3) (normParam [-1, -1, -1, 1, 3, 3, 3] 2) 2 false)
+    = some (scaleJet2 3 4 (srfPlain.ders 3 2 2 false)) := by
+  have h := smesh_export_import_derivatives srfPlain 3 srfPlain_evalOk (fun h => absurd h (by decide)) rfl 3 2
+    ⟨by decide +kernel, by decide +kernel⟩ ⟨by decide +kernel, by decide +kernel⟩ 2 false
+  have e1 : srfPlain.knotsU.getLastD 0 - srfPlain.knotsU.headD 0 = 3 := by decide +kernel
+  have e2 : srfPlain.knotsV.getLastD 0 - srfPlain.knotsV.headD 0 = 4 := by decide +kernel
+  rw [e1, e2] at h
+  exact h
+
+/-- concretely: `∂S/∂u` of the exported surface at `(3, 2)` and of the reimported one at `(1/3, 3/4)` differ by the factor 3,
+    `∂S/∂v` by the factor 4 (the reimported surface is rational with unit weights: A4.4 is run on it) -/
+example : ((srfPlain.ders 3 2 1 false).getD 1 []).getD 0 [] = [1/3, 0, 35/72] ∧
+    ((srfPlain.asRational.ders (1/3) (3/4) 1 false).getD 1 []).getD 0 [] = [1, 0, 35/24] ∧
+    ((srfPlain.ders 3 2 1 false).getD 0 []).getD 1 [] = [0, 3/4, 13/12] ∧
+    ((srfPlain.asRational.ders (1/3) (3/4) 1 false).getD 0 []).getD 1 [] = [0, 3, 13/3] := by decide +kernel
+
+def crvPlain : Crv ℚ :=
+  { rational := false, degree := 2, knots := [1, 1, 1, 2, 3, 3, 3], net := [[0, 0], [1, 2], [3, 2], [4, 0]] }
+
+/-- non-vacuity witness: `EvalOk` holds for the curve above (closed statement, decided by evaluation) -/
+theorem crvPlain_evalOk : crvPlain.EvalOk 2 :=
+  ⟨by decide +kernel, by decide +kernel, by unfold Geomdl.NetOk; decide⟩
+
+example : crvPlain.asRational.ders (normParam [1, 1, 1, 2, 3, 3, 3] (5/2)) 3 = scaleJet 2 (crvPlain.ders (5/2) 3) := by
+  have h := curve_reimport_derivatives crvPlain 2 crvPlain_evalOk (5/2) ⟨by decide +kernel, by decide +kernel⟩ 3
+  have e1 : crvPlain.knots.getLastD 0 - crvPlain.knots.headD 0 = 2 := by decide +kernel
+  rw [e1] at h
+  exact h
+
+/-- concretely: point, first and second derivative at `5/2` resp. `3/4` – factors 1, 2, 4; the third derivative of the
+    quadratic is zero on both sides -/
+example : crvPlain.ders (5/2) 3 = [[3, 3/2], [2, -2], [0, -4], [0, 0]] ∧
+    crvPlain.asRational.ders (3/4) 3 = [[3, 3/2], [4, -4], [0, -16], [0, 0]] ∧
+    normParam [1, 1, 1, 2, 3, 3, 3] (5/2 : ℚ) = 3/4 := by decide +kernel
 
 end C14
